@@ -212,7 +212,10 @@ Arguments FData {c} d.
    whatever is at the path, but only after the key bytes unmarshalled (:177-180, the write is at :234);
    CreateFileSystemSigner (:39-78) refuses a path that already holds a file (:51-53, nothing written).
    As in [save]/[import], the salts and nonces drawn from crypto/rand are inputs; the key pair drawn by
-   Create is an input too (a signer). *)
+   Create is an input too (a signer).
+   [HDamage]: a fault between two operations replaces the content of the file (truncation, empty file, flipped
+   bytes, deletion).  What the operations answer afterwards is a function of what the file holds NOW: nothing
+   an earlier operation wrote (a key rotated away, the passphrase it was sealed under) is kept anywhere. *)
 Section Histories.
 Variable c : crypto.
 
@@ -220,7 +223,12 @@ Inductive hop :=
 | HLoad (pass : bytes)
 | HExport (pass : bytes)
 | HImport (priv pass salt nonce : bytes)
-| HCreate (s : signer) (pass salt nonce : bytes).
+| HCreate (s : signer) (pass salt nonce : bytes)
+(* NOT an operation of the package: a fault of the environment between two operations.  The content of
+   signer.json becomes f' (cut short by an interrupted write, emptied, bytes flipped, deleted).  The package
+   keeps NOTHING besides signer.json (no second copy, no cache: os.ReadFile local.go:116/:328 and os.WriteFile
+   :234/:310 name that one file only), so after the fault the state of the path is f' and nothing else. *)
+| HDamage (f' : file c).
 
 Inductive hres := RSigner (o : outcome signer) | RBytes (o : outcome bytes) | RDone (o : outcome unit).
 
@@ -239,6 +247,7 @@ Definition hstep (f : file c) (op : hop) : file c * hres :=
       | FAbsent => (save c s p salt nonce, RDone (Ok tt))
       | _ => (f, RDone (Err EExists))            (* :51-53 "key file already exists" *)
       end
+  | HDamage f' => (f', RDone (Ok tt))
   end.
 
 (* file and result after each step *)
@@ -286,6 +295,12 @@ Definition session_sigs (s : signer) (ops : list sop) : list bytes :=
   map (signer_sign c s) (session_msgs [] ops).
 
 End Histories.
+
+Arguments HLoad {c} pass.
+Arguments HExport {c} pass.
+Arguments HImport {c} priv pass salt nonce.
+Arguments HCreate {c} s pass salt nonce.
+Arguments HDamage {c} f'.
 
 (* ---- symbolic instance ------------------------------------------------------------------------ *)
 Inductive skey := KRaw (b : bytes) | KArgon (pass salt : bytes).
